@@ -22,6 +22,7 @@ import (
 
 	"github.com/codenotary/immudb/embedded/sql"
 	"github.com/codenotary/immudb/pkg/api/schema"
+	"github.com/codenotary/immudb/pkg/auth"
 	"github.com/codenotary/immudb/pkg/server/sessions"
 	"github.com/golang/protobuf/ptypes/empty"
 )
@@ -48,6 +49,17 @@ func (s *ImmuServer) NewTx(ctx context.Context, request *schema.NewTxRequest) (*
 	// systemdb is always read-only from external access
 	if request.Mode != schema.TxMode_ReadOnly && sess.GetDatabase().GetName() == SystemDBName {
 		return nil, ErrPermissionDenied
+	}
+
+	// a read-write transaction stays bound to this database whatever the session selects later, while the
+	// SQL engine evaluates the statements against the database selected at that time: the permission to
+	// write THIS database is checked here
+	if request.Mode != schema.TxMode_ReadOnly {
+		if u := sess.GetUser(); u == nil || !u.IsSysAdmin {
+			if u == nil || !auth.HasPermissionForMethod(u.WhichPermission(sess.GetDatabase().GetName()), "SQLExec") {
+				return nil, ErrPermissionDenied
+			}
+		}
 	}
 
 	opts := sql.DefaultTxOptions().
